@@ -60,6 +60,10 @@ pub struct World {
     pub viol: Vec<Value>,
     /// submissions made between a block delivery and the following synchronisation
     pub racing_since_sync: u64,
+    /// missing parent -> signature of the known defect that orphaned its pooled children
+    pub orphan_cause: HashMap<Byte32, &'static str>,
+    /// txs committed only on an abandoned branch that did not come back to the pool
+    pub lost_detached: HashSet<Byte32>,
 }
 
 /// what changed on the node's main chain by one delivered block
@@ -116,6 +120,8 @@ impl World {
             next_tag: 1,
             viol: vec![],
             racing_since_sync: 0,
+            orphan_cause: HashMap::new(),
+            lost_detached: HashSet::new(),
         };
         let genesis = w.consensus.genesis_block().clone();
         w.block_id.insert(genesis.hash(), 0);
